@@ -14,7 +14,7 @@ pub mod io {
     use vstd::prelude::*;
     #[derive(Debug)]
     pub struct Error { pub k: u8 }
-    pub enum ErrorKind { Other, BrokenPipe, InvalidData, InvalidInput, UnexpectedEof }
+    pub enum ErrorKind { Other, BrokenPipe, InvalidData, InvalidInput, UnexpectedEof, WriteZero }
     impl Error {
         #[verifier::external_body]
         pub fn new<M>(kind: ErrorKind, msg: M) -> (r: Error) { Error { k: 0 } }
